@@ -198,7 +198,7 @@ fn guard_step<const KIND: u8>(uncreated_local_is_error: bool) {
     // the peer may receive data on: our streams (both kinds) and its bidirectional ones
     let wrong_direction = if sender_frame { local && uni } else { !local && uni };
     let accept_path = !wrong_direction && !local;
-    // (index == advertised count: suspected defect #10 of the limit test, see c12_remote_accept_step_boundary)
+    // (index == advertised count: suspected defect #10 of the limit test, see c12_remote_accept_step_boundary_pending)
     kani::assume(!(accept_path && index == adv));
     let expect = if wrong_direction {
         Verdict::StreamState
